@@ -62,10 +62,10 @@ LAZY_OFF = 500000000   # case ids of the second execution variant
 
 
 def gencfg(ctx, name, ops, depth, kinds=("default", "first", "even"), where=("body", "cell", "resource"), via=VIA1,
-           new=True, schemes=(), contents=(), flags=(True,), abs_=(False,), last=()):
+           new=True, schemes=(), contents=(), flags=(True,), abs_=(False,), last=(), keep=("only",)):
     c = {"MaxSteps": 0, "Depth": depth, "OpNames": set(ops), "KindsC": set(kinds), "WhereC": set(where), "ViaC": set(via),
          "StartNew": new, "SchemesC": set(schemes), "ContentsC": set(contents), "FlagsC": set(flags), "AbsC": set(abs_),
-         "LastC": set(last), "Design": "unused"}
+         "LastC": set(last), "Design": "unused", "KeepC": set(keep)}
     return ctx.cfg(name, "SpecGen", c, invariants=["Emit"])
 
 
@@ -84,6 +84,9 @@ def plans(seed, q):
         ("foreign", dict(ops=fcore, depth=2 if q else 3, kinds=("default",), where=("body",),
                          new=False, schemes=SCHEMES if q else [x for i, x in enumerate(SCHEMES) if i % 3 != seed % 3], contents=["full"])),
     ]
+    # one engine renders the same template with the same data twice: the first / the second document is the one kept
+    P += [("render2", dict(ops=["Placeholder", "Render", "AddImage"], depth=3 if q else 4, kinds=("default",), where=("body", "cell"),
+                           via=VIA1 | ({"renderer"} if seed % 2 else {"legacy"}), keep=("first", "second")))]
     # notes added and taken away again (one / all of them), in every order, with Reopen in between
     P += [("notes", dict(ops=["AddFootnote", "AddEndnote", "Reopen"] + REMOVE, depth=3 if q else 5, kinds=k2[:1], where=("body",)))]
     if q:
